@@ -384,10 +384,14 @@ def _expand_match_element(
 
                 return_var_name = element.return_var_name
 
-                element.spec.ref = element_ref
-                element.return_var_name = None
+                # Do not modify the original element: the same AST objects are expanded
+                # once per group / case of an enclosing `when` statement
+                new_element = copy.copy(element)
+                new_element.spec = copy.copy(element.spec)
+                new_element.spec.ref = element_ref
+                new_element.return_var_name = None
 
-                new_elements.append(element)
+                new_elements.append(new_element)
                 new_elements.append(
                     Assignment(
                         key=return_var_name,
